@@ -502,11 +502,25 @@ def rc_cases(ctx, T, r, n, found_classes):
         sm = r.choice([(0, 0, 1), (1, 0, 1) if len(raw) < 5000 else (2, 0, 4095), (3, r.randrange(1 << 32), r.choice([3, 1000, 20000]))])
         rc, out, err = T.harness(["data " + raw.hex(), "rc %d %d %d %d" % (amount, sm[0], sm[1], sm[2])])
         want = "RC " + show_bytes(plain) + " over=0 data_after_zero=0"
+        sizes = None
+        if rc == 0 and len(out) > 1 and " sizes=" in out[1]:
+            out[1], _, sizes = out[1].partition(" sizes=")
         if rc == 0 and len(out) > 1 and out[1] == "pipe-too-small":
             ctx.hist("rc.skipped_no_pipe_buffer", codec)
             continue
         ctx.count(("rc", sha(raw), amount, sm), nontrivial=codec != "plain" and len(plain) > 0)
         ctx.hist("rc.codec", codec)
+        if codec == "plain" and rc == 0 and len(out) > 1 and out[1] == want:
+            # the concrete reader model (ReadFactory header, UncompressedWithHeader, Uncompressed) predicts every return value
+            rc2, o2, e2 = T.driver(["data " + plain.hex(), "rc %d %d %d %d" % (amount, sm[0], sm[1], sm[2])])
+            ctx.count(("rc-model", sha(raw), amount, sm))
+            if rc2 != 0 or len(o2) < 2 or o2[1] != "sizes=" + sizes:
+                found = True
+                if "rc:sizes" not in found_classes:
+                    found_classes.add("rc:sizes")
+                    ctx.violation("ReadCompressed::Read on uncompressed data returns other sizes than the reader model",
+                                  {"stream": "readcompressed", "codec": codec, "amount": amount, "shim": sm, "raw_hex": raw.hex()[:100000],
+                                   "impl": "sizes=" + str(sizes), "expected": o2[1:] if rc2 == 0 else e2[-500:]})
         if rc != 0 or len(out) < 2 or out[1] != want:
             found = True
             summ = [l for l in err.splitlines() if l.startswith("SUMMARY:") or "runtime error:" in l]
